@@ -48,10 +48,31 @@ contract(MM, "merge_shard_infos", props=["C04", "C05", "C06", "C08", "C09", "C16
         ("C04", "reveal DISKKEEP,J_DISK: hide R_DISK: DISK_OK(dataset_root)"),
         ("C04", "reveal GINVKEEP,J_GINV,J_DISK: hide R_GINV: GINV(dataset_root)"),
         "reveal I_FS: hide R_FS: " + _FRAME_FS, "reveal CERTDEF,I_CERT: hide R_CERT: " + _FRAME_CERT,
+        # C08 (nothing is dropped at this level): the list written here keeps the shard entries the file had,
+        # has a child entry for the sub-directory of every deeper update and for every child entry it had
+        ("C08", "implies(old(LISTFILE(dataset_root, MP0(updates, common))), DOC_AT(dataset_root, MP0(updates, common)).shard_files == old(DOC_AT(dataset_root, MP0(updates, common)).shard_files))"),
+        ("C08", "forall(lambda j: implies(0 <= j and j < len(updates) and NPARTS(UP(updates[j])) > common + 1,"
+                "   exists(lambda i: 0 <= i and i < len(DOC_AT(dataset_root, MP0(updates, common)).children_shard_lists)"
+                "        and UP(DOC_AT(dataset_root, MP0(updates, common)).children_shard_lists[i]) == PJOIN(PPREFIX(UP(updates[j]), common + 1), 'shards_list.json'))))"),
+        ("C08", "forall(lambda c: implies(old(LISTFILE(dataset_root, MP0(updates, common))) and 0 <= c and c < old(len(DOC_AT(dataset_root, MP0(updates, common)).children_shard_lists)),"
+                "   exists(lambda i: 0 <= i and i < len(DOC_AT(dataset_root, MP0(updates, common)).children_shard_lists)"
+                "        and UP(DOC_AT(dataset_root, MP0(updates, common)).children_shard_lists[i]) == old(UP(DOC_AT(dataset_root, MP0(updates, common)).children_shard_lists[c])))))"),
         # list documents are the ones parsed before or new ghost objects
         "reveal I_DOCS: hide R_DOCS: " + _DOCS,
     ],
     raises={"ValueError": ["True"]},
+    exit_lemmas=[
+        # C08: where the child entry of each merged sub-directory sits in the list written here
+        ("C08", f"forall(lambda g: implies(g in merged, 0 <= dictidx(merged, g) and dictidx(merged, g) < len(DOC_AT(dataset_root, {_P0}).children_shard_lists)"
+                f"   and UP(DOC_AT(dataset_root, {_P0}).children_shard_lists[dictidx(merged, g)]) == PJOIN(PJOIN({_D}, g), 'shards_list.json')), g='U')"),
+        ("C08", f"forall(lambda j: implies(0 <= j and j < len(deeper_updates), PART(UP(deeper_updates[j]), common) in merged))"),
+        ("C08", f"forall(lambda j: implies(0 <= j and j < len(deeper_updates) and axinst(path_inst(UP(deeper_updates[j]), common)),"
+                f"   PJOIN(PPREFIX(UP(deeper_updates[j]), common + 1), 'shards_list.json') == PJOIN(PJOIN({_D}, PART(UP(deeper_updates[j]), common)), 'shards_list.json')))"),
+        # a child entry lies directly below D: its path is D / <its directory> / shards_list.json
+        ("C08", f"forall(lambda j: implies(0 <= j and j < len(deeper_updates) and NPARTS(UP(deeper_updates[j])) == common + 2"
+                f"   and axinst(path_inst(UP(deeper_updates[j]), common + 1, common) and path_inst(UP(deeper_updates[j]), common)),"
+                f"   UP(deeper_updates[j]) == PJOIN(PJOIN({_D}, PART(UP(deeper_updates[j]), common)), 'shards_list.json')))"),
+    ],
     locals_={"recursively_update": "dict:list:ref:ShardListInfo", "_dc1": "dict:ref:ShardListInfo"},
     loops={
         1: Loop(inv=["0 <= _k",
@@ -66,9 +87,29 @@ contract(MM, "merge_shard_infos", props=["C04", "C05", "C06", "C08", "C09", "C16
             "forall(lambda i, j: implies(0 <= i and i < j and j < len(deeper_updates), UP(deeper_updates[i]) != UP(deeper_updates[j])))",
             f"forall(lambda j, i: implies(loop_entry(len(deeper_updates)) <= j and j < len(deeper_updates) and _k <= i and i < len({_RSL}.children_shard_lists),"
             f"   UP(deeper_updates[j]) != UP({_RSL}.children_shard_lists[i])))",
+            # C08: every child entry visited so far is represented among the infos to be merged below
+            ("C08", f"forall(lambda c: implies(0 <= c and c < _k, exists(lambda j: 0 <= j and j < len(deeper_updates)"
+                    f"   and UP(deeper_updates[j]) == UP({_RSL}.children_shard_lists[c]))))"),
+            ("C08", f"implies(old(LISTFILE(dataset_root, {_P0})), len({_RSL}.children_shard_lists) == old(len(DOC_AT(dataset_root, {_P0}).children_shard_lists))"
+                    f"   and forall(lambda c: implies(0 <= c and c < len({_RSL}.children_shard_lists),"
+                    f"        UP({_RSL}.children_shard_lists[c]) == old(UP(DOC_AT(dataset_root, {_P0}).children_shard_lists[c])))))"),
+            # C08: so is every deeper update
+            ("C08", "forall(lambda u: implies(0 <= u and u < len(updates) and NPARTS(UP(updates[u])) > common + 1,"
+                    "   exists(lambda j: 0 <= j and j < len(deeper_updates) and deeper_updates[j] is updates[u])))"),
         ], frame={"ShardsList.children_shard_lists": [], "ShardsList.shard_files": [], "ShardsList.relative_path_self": [],
                   "ShardsList.number_of_examples": ["root_shard_list"],
                   "ShardInfo.number_of_examples": [], "ShardListInfo.number_of_examples": []},
+           end_lemmas=[
+               # the child entry just visited is represented among the infos to merge: by the update that
+               # supersedes it, or by itself (appended last)
+               "implies(UP(child) in updated_paths, exists(lambda j: 0 <= j and j < len(deeper_updates) and UP(deeper_updates[j]) == UP(child)))",
+               "implies(not (UP(child) in updated_paths), len(deeper_updates) >= 1 and UP(deeper_updates[len(deeper_updates) - 1]) == UP(child))",
+               "exists(lambda j: 0 <= j and j < len(deeper_updates) and UP(deeper_updates[j]) == UP(child))",
+               # the list only grows at its end
+               "len(deeper_updates) >= iter_start(len(deeper_updates))"
+               " and forall(lambda j: implies(0 <= j and j < iter_start(len(deeper_updates)), deeper_updates[j] is iter_start(deeper_updates)[j]))",
+               f"_k == iter_start(_k) + 1 and child is {_RSL}.children_shard_lists[iter_start(_k)]",
+           ],
            lemmas=[f"use_path({_P0}, common + 1, common)",
                    f"use_path(UP(updates[0]), common)",
                    f"forall(lambda i: use_path(UP({_RSL}.children_shard_lists[i]), common + 1, common))"]),
@@ -82,6 +123,7 @@ contract(MM, "merge_shard_infos", props=["C04", "C05", "C06", "C08", "C09", "C16
             f"   UP({_G}[g][i]) != UP({_G}[g][j])), g='U')",
             f"forall(lambda g, i, j: implies(g in {_G} and 0 <= i and i < len({_G}[g]) and _k <= j and j < len(deeper_updates),"
             f"   UP({_G}[g][i]) != UP(deeper_updates[j])), g='U')",
+            ("C08", f"forall(lambda j: implies(0 <= j and j < _k, PART(UP(deeper_updates[j]), common) in {_G}))"),
         ], lemmas=["forall(lambda j: use_path(UP(deeper_updates[j]), common))"]),
         4: Loop(inv=[
             f"0 <= _k and _k <= dictlen({_G})",
